@@ -1050,11 +1050,15 @@ impl Ctx {
         stats.cases = stats.cases.max(1);
         let mut fl = failures.into_inner().unwrap();
         fl.sort_by(|a, b| a.sig.cmp(&b.sig));
-        if let Some(f) = fl.into_iter().next() {
+        // a known-signature failure in one shard must not mask a new one in another
+        stats.recording = true;
+        let mut reported = false;
+        for f in fl.into_iter() {
             if self.is_known(&f.sig) {
                 stats.known_hit(&f.sig);
-            } else {
+            } else if !reported {
                 self.report_failure(name, None, f);
+                reported = true;
             }
         }
         self.subs.push(SubReport {
@@ -1172,7 +1176,11 @@ impl Ctx {
 
     /// Require that an essential class was reached (generator regression guard).
     pub fn require_class(&mut self, sub: &str, class: &str, min: u64) {
-        if self.skip(sub) {
+        if self.skip(sub) || self.replay_entropy.is_some() {
+            return;
+        }
+        // development-only budget scaling makes class counts meaningless
+        if std::env::var("VERIF_SCALE").is_ok() {
             return;
         }
         let got = self
